@@ -204,6 +204,22 @@ def hcl_case(rng):
                 term = "[ %s : %s; 1 : 0b%s; ]" % (rng.choice(["0", "FALSE", "KF", "(1 == 2)", "0b0"]), term, "0" * m_)
             elif r_ < 0.2:
                 term = "[ KF : 0b%s; (1 == 2) : %s; 1 : 0b%s; ]" % ("0" * m_, term, "0" * m_)
+            elif r_ < 0.5:
+                # the name mentioned in every other syntactic position an expression has
+                z = "0b" + "0" * m_
+                term = rng.choice([
+                    "[ 5 in { 7, %s } : %s; 1 : %s; ]" % (s, z, z),            # member of a set
+                    "[ 5 in { %s } : %s; 1 : %s; ]" % (s, z, z),
+                    "[ 0 in { 1, 2, %s, 3 } : %s; 1 : %s; ]" % (s, z, z),
+                    "[ %s in { 1, 2 } : %s; 1 : %s; ]" % (s, z, z),            # left of 'in'
+                    "[ %s == 0 : %s; 1 : %s; ]" % (s, z, z),                   # mux condition
+                    "[ 0 : %s; (%s > 3) || KF : %s; 1 : %s; ]" % (z, s, z, z),
+                    "((%s .. 0b0)[0..%d])" % (s, m_),                          # concatenation
+                    "((0b0 .. %s)[0..%d])" % (s, m_),
+                    "((~%s)[0..%d])" % (s, m_), "((-%s)[0..%d])" % (s, m_),    # unary
+                    "((%s ^ %s)[0..%d])" % (s, s, m_),
+                    "(((%s)[1..%d] .. 0b0)[0..%d])" % (s, width[s], m_),
+                ])
             terms.append(term)
         # every term has width <= tw; pad with a tw-wide zero so '+' (max rule) yields tw
         zero = "0b" + "0" * tw
